@@ -2,22 +2,9 @@
    (correspondence) and the property predicates on the implementation's own output. *)
 From LP Require Import Prelude.Py Ast.AstLite Ast.AuxStr Ast.Select Ast.Transform.
 
-Definition obody_eqb (a b : option (list stmt)) : bool := opt_eqb body_eqb a b.
-
-(* model result against the implementation's: trees equal, or the same exception class *)
-Definition res_tree_eqb (m : res (list stmt)) (impl : option (list stmt)) (impl_err : Z) : bool :=
-  match m, impl with
-  | Ok t, Some t' => body_eqb t t'
-  | Err e, None => exn_code e =? impl_err
-  | _, _ => false
-  end.
-
-Definition res_dict_eqb (m : res dict) (impl : option dict) : bool :=
-  match m, impl with
-  | Ok d, Some d' => dict_eqb d d'
-  | Err _, None => true
-  | _, _ => false
-  end.
+(* model result against the implementation's (None: the implementation raised) *)
+Definition tree_eqb (m : list stmt) (impl : option (list stmt)) : bool :=
+  match impl with Some t' => body_eqb m t' | None => false end.
 
 Definition zlist_eqb := list_eqb Z.eqb.
 Definition fheads_eqb := list_eqb fhead_eqb.
@@ -30,39 +17,41 @@ Definition deco_ok (full : bool) (pre out : list stmt) : bool :=
     && (if clean pre then forallb once_innermost (funcs out) else true)
   else fheads_eqb (funcs out) (funcs pre).
 
+(* C09_selection_exact + C09_selection_order on an observed dict *)
+Definition selection_ok (S : list string) (body : list stmt) (d : dict) : bool :=
+  kvs_seteq (dict_items d) (wanted S body)
+  && forallb (fun kv => list_eqb String.eqb (snd kv)
+                                 (map snd (filter (fun w => Z.eqb (fst w) (fst kv)) (wanted S body)))) d.
+
 (* ---- C09 -------------------------------------------------------------------------- *)
 (* result: [correspondence; selection exact; whole-script / nothing else] *)
 Definition c09_case (full imports : bool) (modname : option string) (S : list string)
            (orig pre_impl : list stmt) (impl_dict : option dict) (impl_out : option (list stmt))
-           (impl_err : Z) : list bool :=
+  : list bool :=
   let c := Build_cfg full imports modname S in
   let corr :=
-    res_tree_eqb (transform c orig) impl_out impl_err
-    && res_dict_eqb (select S (pre c orig)) impl_dict
+    tree_eqb (transform c orig) impl_out
+    && (match impl_dict with Some d => dict_eqb (select S (pre c orig)) d | None => false end)
     && body_eqb (pre c orig) pre_impl in
-  let sel_ok :=
-    match impl_dict with
-    | Some d => kvs_seteq d (wanted S pre_impl)
-    | None => true
-    end in
+  let sel_ok := match impl_dict with Some d => selection_ok S pre_impl d | None => false end in
   let whole_ok :=
     match impl_out, impl_dict with
     | Some out, Some d =>
         deco_ok full pre_impl out
         && body_eqb (erase out) (erase pre_impl)
-        && (if imports && full then strs_subset (map snd d ++ regs pre_impl) (regs out)
-            else strs_seteq (regs out) (map snd d ++ regs pre_impl))
-    | _, _ => true
+        && (if imports && full then strs_subset (map snd (dict_items d) ++ regs pre_impl) (regs out)
+            else strs_seteq (regs out) (map snd (dict_items d) ++ regs pre_impl))
+    | _, _ => false
     end in
   [corr; sel_ok; whole_ok].
 
 (* ---- C08 -------------------------------------------------------------------------- *)
 (* result: [correspondence; erasure; lines; decorators; located; __future__ placement; no `*`] *)
 Definition c08_case (full imports : bool) (modname : option string) (S : list string)
-           (orig : list stmt) (impl_out : option (list stmt)) (impl_err : Z) : list bool :=
+           (orig : list stmt) (impl_out : option (list stmt)) : list bool :=
   let c := Build_cfg full imports modname S in
   let t' := pre c orig in
-  let corr := res_tree_eqb (transform c orig) impl_out impl_err in
+  let corr := tree_eqb (transform c orig) impl_out in
   match impl_out with
   | Some out =>
       [corr;
@@ -73,11 +62,4 @@ Definition c08_case (full imports : bool) (modname : option string) (S : list st
        implb (future_ok orig) (future_ok out);
        implb (star_free orig) (star_free out)]
   | None => [corr; false; true; true; true; true; true]   (* the rewrite itself failed *)
-  end.
-
-Fixpoint transpose_flags (n : nat) (rows : list (list bool)) : list (list bool) :=
-  match n with
-  | O => []
-  | S n' => map (fun r => match r with b :: _ => b | [] => true end) rows
-            :: transpose_flags n' (map (fun r => match r with _ :: t => t | [] => [] end) rows)
   end.
